@@ -450,20 +450,50 @@ class Model:
         """Class by short qualname, e.g. 'block_token.Quote'. Vanished -> AnalysisError."""
         ci = self.classes.get(PKG + '.' + short)
         if ci is None:
+            ci = self._through_import(short, ClassInfo)
+        if ci is None:
             raise AnalysisError('anchor vanished: class %s' % short)
         return ci
 
+    def _through_import(self, short, kind):
+        """`module.Name` where the module imports (re-exports) Name from another module of the package: the object
+        it names there. Dotted tails (`module.Class.method`) are followed through the class."""
+        parts = short.split('.')
+        for cut in range(len(parts) - 1, 0, -1):
+            modname = PKG + '.' + '.'.join(parts[:cut]) if parts[:cut] != [''] else PKG
+            if modname not in self.units:
+                continue
+            try:
+                r = self.resolve(modname, parts[cut])
+            except Exception:
+                r = None
+            for attr in parts[cut + 1:]:
+                if isinstance(r, ClassInfo):
+                    hit = r.lookup(attr)
+                    r = hit[1] if hit is not None else None
+                else:
+                    r = None
+            if isinstance(r, kind):
+                return r
+        if PKG in self.units and len(parts) == 1:
+            r = self.resolve(PKG, parts[0])
+            if isinstance(r, kind):
+                return r
+        return None
+
     def func(self, short):
         fi = self.functions.get(PKG + '.' + short)
+        if fi is None:
+            fi = self._through_import(short, FuncInfo)
         if fi is None:
             raise AnalysisError('anchor vanished: function %s' % short)
         return fi
 
     def has_func(self, short):
-        return (PKG + '.' + short) in self.functions
+        return (PKG + '.' + short) in self.functions or self._through_import(short, FuncInfo) is not None
 
     def has_cls(self, short):
-        return (PKG + '.' + short) in self.classes
+        return (PKG + '.' + short) in self.classes or self._through_import(short, ClassInfo) is not None
 
     def method(self, cls_short, name):
         ci = self.cls(cls_short)
